@@ -2,6 +2,7 @@
 \* (ascending, descending), every key twice (adjacent, half apart, half apart descending), one hot key n/2 times interleaved;
 \* BTreeMap / HashMap / ThreadLocalCtxt snapshot of 21 and 64; 6 joins; each alone, under dedup / erased / as_map / Box / Some,
 \* and joined with a pair repeating the hot key.
+\* Every collection is replayed under the 6 key storage forms of Props.tla (KeyForms) with lookup keys separate / from the same buffer / prefix slices of enumerated keys.
 SPECIFICATION Spec
 CONSTANTS
     KeyOrder <- MC_KeyOrder
